@@ -1248,6 +1248,20 @@ class StmtMixin(object):
                 return
             if isinstance(r, Closure) or isinstance(r, FuncV):
                 raise Unsupported('attribute store on function object')
+            if isinstance(r, Obj) and self.reg.get('<ext>', '%s.%s.setter' % (r.cls, target.attr)) is not None:
+                # x.attr = v on a library object that writes through to a stateful library object (a cell of a worksheet): the assumed contract
+                # (self, value, owner) modifies the owner -- the ONE stateful object of the owner's class in scope; that x belongs to it is the
+                # contract's precondition, hence an obligation here
+                ca = self.reg.get('<ext>', '%s.%s.setter' % (r.cls, target.attr))
+                ocls = list(ca.params.values())[2].args[0]
+                owners = {}
+                for nm_, val_ in st.env.items():
+                    if isinstance(val_, Ref):
+                        d_ = st.cells.get(val_.id)
+                        if isinstance(d_, Obj) and d_.cls == ocls: owners[val_.id] = val_
+                if len(owners) != 1: raise Unsupported('%s.%s = ..: %d objects of class %s in scope (exactly one is handled)' % (r.cls, target.attr, len(owners), ocls))
+                if len(self.call_contract(ca, None, [recv, v, list(owners.values())[0]], {}, st, target)) != 1: raise Unsupported('forking store contract')
+                return
             raise Unsupported('attribute store on %r' % (r,))
         if isinstance(target, ast.Subscript) and isinstance(target.value, ast.Subscript):
             base = self.ev1(target.value.value, st); bd = self.deref(base, st)
@@ -1262,6 +1276,12 @@ class StmtMixin(object):
             recv = self.ev1(target.value, st)
             r = self.deref(recv, st)
             k = self.ev1(target.slice, st)
+            if isinstance(r, Obj) and getattr(self.reg.classes.get(r.cls), 'stateful', False):
+                # obj[key] = value on a stateful library object: its assumed store contract
+                c1 = self.reg.get('<ext>', '%s.__setitem__' % r.cls)
+                if c1 is None: raise Unsupported('no assumed contract for %s[..] = ..' % r.cls)
+                if len(self.call_contract(c1, None, [recv, k, v], {}, st, target)) != 1: raise Unsupported('forking store contract')
+                return
             if isinstance(recv, InnerRef) and isinstance(r, SymDict):
                 o = st.cells[recv.outer.id]
                 kt = self.key_term(k, st)
@@ -1464,7 +1484,11 @@ class StmtMixin(object):
                 srcs = [self.deref(self.ev1(a, st), st) for a in s.iter.args]
                 if all(isinstance(x, (Tup, PyList)) for x in srcs):
                     return self.unrolled(s, [Tup(list(t)) for t in zip(*[x.items for x in srcs])], st)
-                raise Unsupported('zip over symbolic sequences')
+                if not (len(srcs) >= 1 and all(isinstance(x, SeqV) for x in srcs)): raise Unsupported('zip over %r' % (srcs,))
+                # zip over sequences of symbolic length: as many items as the shortest has, item k is the tuple of the k-th elements
+                lo, hi = z3.IntVal(0), z3.Length(srcs[0].z)
+                for x in srcs[1:]: hi = z3.If(z3.Length(x.z) < hi, z3.Length(x.z), hi)
+                elem = lambda k, st_, srcs=srcs: Tup([wrap(x.elem, x.z[k]) for x in srcs])
         else:
             src = self.deref(itv, st)
             if isinstance(src, Obj) and getattr(self.reg.classes.get(src.cls), 'external', False):
@@ -2861,6 +2885,8 @@ class Executor(Exec, ExprMixin, StmtMixin, CallMixin):
                          order=(z3.Const(nm + '.order', z3.SeqSort(kty.sort())) if k == 'ODict' else None))
             if k == 'ODict': st.pc += odict_wf(d_)
             return st.new_cell(d_) if nm in self.contract.modifies else d_
+        if k == 'Obj' and getattr(self.reg.classes.get(ty.args[0]), 'stateful', False):
+            return st.new_cell(Obj(z3.Const(nm, ty.sort()), ty.args[0]))      # a stateful library object handed in: its abstract state lives in a cell
         return wrap(ty, z3.Const(nm, ty.sort()))
 
     def literal_input(self, pv, ty, st):
